@@ -226,6 +226,17 @@ func (m *refModel) checkSeq(prop string, recs []*beRec) {
 		case "walk":
 			m.checkWalk(rec, bad)
 
+		case "walkDel":
+			m.checkWalk(rec, bad)
+
+			for _, d := range rec.walkDel {
+				if d.err != nil && m.m[d.key] != nil && !m.m[d.key].maybeLost {
+					bad(rec, "Delete(%q) issued from the Walk callback that was just shown this entry returned %v", d.key, d.err)
+				}
+
+				delete(m.m, d.key)
+			}
+
 		case "walkErr":
 			if !errors.Is(rec.walkErr, errWalkStop) {
 				if m.surelyHeld() > int(rec.op.SleepNs) {
